@@ -16,7 +16,7 @@ from __future__ import annotations
 import ast
 
 from .e1_srcmodel import dotted
-from .e3_masks import MaskTyper, A, I, NZ, EMPTY, _join as join_types
+from .e3_masks import MaskTyper, A, I, NZ, S, EMPTY, _join as join_types
 
 
 class A2(A):
@@ -134,6 +134,7 @@ class MaskTyper01(MaskTyper):
         self.rets = []
         self.closures = set()       # names of local helpers (nested def): followed with the enclosing scope visible
         self.serial = 0
+        self.unsure = []            # (call node, reason): masked stores through a library function whose operand spaces could not be typed
 
     def _sel_name(self, node):
         if isinstance(node, ast.Name):
@@ -243,8 +244,116 @@ class MaskTyper01(MaskTyper):
                 return _join_any(a, b) if isinstance(a, Tup) and isinstance(b, Tup) else None
         return super().ty(node)
 
-    def call(self, node):
+    # ---- masked stores spelled as library calls.  They differ in what they do with the VALUES, which only the spaces of the operands can tell:
+    #   np.place(arr, mask, vals)           arr[mask] = vals     vals: one entry per True of mask (the first N are used, shorter ones repeated)
+    #   np.putmask(a, mask, values)         a[mask] = values[mask]   values: one entry per entry of a (a shorter one is repeated by POSITION)
+    #   np.copyto(dst, src, where=mask)     dst[mask] = src[mask]    src broadcast to dst
+    #   np.put(a, ind, v)                   a[ind] = v           ind: POSITIONS (a boolean mask would be read as the positions 0 and 1)
+    MASKED_SIGS = {"np.place": ("arr", "mask", "vals"), "np.putmask": ("a", "mask", "values"), "np.put": ("a", "ind", "v"), "np.copyto": ("dst", "src")}
+
+    def masked_store_call(self, d, node):
+        sig = self.MASKED_SIGS[d]
+        got = dict(zip(sig, node.args))
+        extra = {}
+        for k in node.keywords:
+            if k.arg in sig and k.arg not in got:
+                got[k.arg] = k.value
+            else:
+                extra[k.arg] = k.value
+        if len(node.args) > len(sig) or any(isinstance(a, ast.Starred) for a in node.args) or set(got) != set(sig):
+            self.unsure.append((node, "arguments that cannot be placed on the signature"))
+            return None
+        text = ast.unparse(node)[:140]
+
+        def known(t):
+            return t == S or (isinstance(t, A) and t.s is not None)
+        if d == "np.place":
+            arr, v = self.ty(got["arr"]), self.ty(got["vals"])
+            n0 = self.resolved
+            self.store(ast.copy_location(ast.Subscript(value=got["arr"], slice=got["mask"], ctx=ast.Store()), node), v, node)
+            if not (isinstance(arr, A) and arr.s is not None and known(v) and (v == S or self.resolved > n0)):
+                self.unsure.append((node, f"np.place uses the first N values (N = number of selected entries): array {arr!r}, values {v!r}"))
+            return None
+        if d == "np.put":
+            arr, ind, v = self.ty(got["a"]), self.ty(got["ind"]), self.ty(got["v"])
+            if isinstance(ind, A) and ind.kind == "mask":
+                self.resolved += 1
+                self.report("store-space", node, f"`{text}`: np.put takes positions; the boolean mask `{ast.unparse(got['ind'])[:60]}` is read as the positions 0 and 1")
+                return None
+            n0 = self.resolved
+            self.store(ast.copy_location(ast.Subscript(value=got["a"], slice=got["ind"], ctx=ast.Store()), node), v, node)
+            if not (isinstance(arr, A) and arr.s is not None and isinstance(ind, I) and known(v) and (v == S or self.resolved > n0)):
+                self.unsure.append((node, f"np.put stores at positions: array {arr!r}, positions {ind!r}, values {v!r}"))
+            return None
+        # np.putmask / np.copyto(where=): destination, mask and values all have one entry per entry of the destination
+        if d == "np.copyto":
+            mask = extra.pop("where", None)
+            extra.pop("casting", None)
+            arr, v = self.ty(got["dst"]), self.ty(got["src"])
+        else:
+            mask = got["mask"]
+            arr, v = self.ty(got["a"]), self.ty(got["values"])
+            extra = dict(extra)
+        if extra:
+            self.unsure.append((node, f"keyword(s) {sorted(str(k) for k in extra)}"))
+            return None
+        mt = self.ty(mask) if mask is not None else S
+        types = [t for t in (arr, mt, v) if isinstance(t, A)]
+        sp = {t.s for t in types}
+        if None not in sp and len(sp) > 1:
+            self.resolved += 1
+            self.report("store-space", node, f"`{text}`: destination, mask and values must have one entry per entry of the destination, but they live in "
+                                             f"spaces {arr!r}, {mt!r}, {v!r}" + (" (np.putmask repeats shorter values by position, it does not use them one per selected entry "
+                                                                                 "as np.place does)" if d == "np.putmask" else ""))
+            return None
+        if isinstance(arr, A) and arr.s is not None and known(v) and (mask is None or (isinstance(mt, A) and mt.s is not None and mt.kind == "mask")):
+            self.resolved += 1
+        else:
+            self.unsure.append((node, f"destination {arr!r}, mask {mt!r}, values {v!r}"))
+        return None
+
+    def canon_call(self, node):
+        """the call with its callee in the canonical library spelling (np.exp for `_exp` imported `from numpy import exp as _exp`, np.zeros for numpy.zeros /
+        xp.zeros): which name a module binds the library to is not behaviour"""
+        from .c01_ev import import_aliases, canon_dotted, _dotted_node
         d = dotted(node.func)
+        if d is None or d.split(".")[0] in self.env or d in self.inline:
+            return node
+        c = canon_dotted(d, import_aliases(getattr(self, "mod", None)))
+        if c == d:
+            return node
+        nf = _dotted_node(c, node)
+        if nf is None:
+            return node
+        return ast.copy_location(ast.Call(func=nf, args=node.args, keywords=node.keywords), node)
+
+    def call(self, node):
+        node = self.canon_call(node)
+        d = dotted(node.func)
+        if d in self.MASKED_SIGS:
+            return self.masked_store_call(d, node)
+        f = node.func
+        meth = f.attr if isinstance(f, ast.Attribute) and not (isinstance(f.value, ast.Name) and f.value.id in ("np", "numpy") and f.value.id not in self.env) else None
+        if meth == "put" and not any(k.arg is None for k in node.keywords):
+            return self.masked_store_call("np.put", ast.copy_location(ast.Call(func=f, args=[f.value] + list(node.args), keywords=node.keywords), node))
+        # selections spelled as calls: np.take(x, i) / x.take(i) -> x[i];  np.compress(c, x) / x.compress(c) / np.extract(c, x) -> x[c]
+        kw = {k.arg: k.value for k in node.keywords}
+        if not (set(kw) - {"a", "indices", "condition", "arr"}):
+            x = ix = None
+            pos = list(node.args)
+            if d == "np.take":
+                got = dict(zip(("a", "indices"), pos), **kw)
+                x, ix = got.get("a"), got.get("indices")
+            elif d == "np.compress":
+                got = dict(zip(("condition", "a"), pos), **kw)
+                x, ix = got.get("a"), got.get("condition")
+            elif d == "np.extract":
+                got = dict(zip(("condition", "arr"), pos), **kw)
+                x, ix = got.get("arr"), got.get("condition")
+            elif meth in ("take", "compress") and len(pos) + len(kw) == 1:
+                x, ix = f.value, (pos[0] if pos else next(iter(kw.values())))
+            if x is not None and ix is not None and len(pos) <= 2:
+                return self.ty(ast.copy_location(ast.Subscript(value=x, slice=ix, ctx=ast.Load()), node))
         if d == "dict":
             out = DictT()
             if len(node.args) == 1:
@@ -290,6 +399,12 @@ class MaskTyper01(MaskTyper):
                     return None
                 return _join_any(b[k.v], dv) if k.v in b else dv
         from .e3_masks import CTORS
+        if d in CTORS and node.args and isinstance(node.args[0], (ast.Tuple, ast.List)) and len(node.args[0].elts) == 2 \
+                and isinstance(node.args[0].elts[0], ast.Constant) and isinstance(node.args[0].elts[0].value, int):
+            # np.zeros((3, n), dtype=bool): a table of rows over the space of n; unpacked / iterated, every row is an array of that space
+            row = self.call(ast.copy_location(ast.Call(func=node.func, args=[node.args[0].elts[1]] + list(node.args[1:]), keywords=node.keywords), node))
+            if isinstance(row, A) and row.s is not None:
+                return Gen(row)
         if d in CTORS and node.args:
             # np.zeros(len(x)) / np.zeros(x.shape[0]) / np.zeros(x.size): an array over the space of x
             a0 = node.args[0]
@@ -366,6 +481,7 @@ class MaskTyper01(MaskTyper):
         sub.serial = _SERIAL[0]
         sub.mod = getattr(fn, "_vmod", getattr(self, "mod", None))
         sub.closures = set(self.closures)
+        sub.unsure = self.unsure
         sub.ver = dict(self.ver)
         sub.run(fn.body)
         self.resolved += sub.resolved
